@@ -282,6 +282,27 @@ def ctrlOutputs (sorted : Bool) (st : NameState) (iter : List String) :
   let r := renameAll st live
   (live, r.1, r.2)
 
+/-! ## 5b. Rewriter: opset imports added for a replacement -/
+
+/-- `TapeBuilder.used_opsets` is a SET of `(domain, version?)`; `iter` is the order in which this
+interpreter iterates it (decided by `PYTHONHASHSEED`). -/
+abbrev UsedOpset := String × Option Nat
+
+def UsedOpset.key (o : UsedOpset) : Nat := match o.2 with | none => 0 | some v => v + 1
+
+/-- order used by the proposed fix: by domain, then "no version" before versions -/
+def leOpset (a b : UsedOpset) : Bool := if a.1 = b.1 then decide (a.key ≤ b.key) else decide (a.1 ≤ b.1)
+
+/-- `_rewrite_rule._update_opset_imports`: every used domain not yet imported is appended to the imports
+dict (version, or 1 when unspecified); `sorted = true` is the code as it is since 630be50
+(`for … in sorted(delta.used_opsets, …)`), `sorted = false` the code before (bare set iteration).  The version-clash `ValueError` is not modelled (the first
+binding of a domain wins here). -/
+def updateOpsetImports (sorted : Bool) (imports : List (String × Nat)) (iter : List UsedOpset) :
+    List (String × Nat) :=
+  let order := if sorted then iter.mergeSort leOpset else iter
+  order.foldl (fun imps o =>
+    if (imps.lookup o.1).isSome then imps else imps ++ [(o.1, o.2.getD 1)]) imports
+
 /-! ## 6. Globals, decoration, protos, eager calls -/
 
 /-- body of a script: one expression over the input `x` and global names -/
@@ -456,6 +477,8 @@ structure ConverterFacts where
   freshPerScript : Bool
   /-- methods of `Converter` that hand the user's object straight to `ir.tensor(...)` (no snapshot) -/
   constByRefSites : List String := []
+  /-- `_rewrite_rule._update_opset_imports` iterates `sorted(delta.used_opsets, …)` (not the bare set) -/
+  opsetImportsSorted : Bool := false
   deriving DecidableEq, Repr
 
 def ConverterFacts.leaks (c : ConverterFacts) : List String :=
